@@ -15,7 +15,7 @@ VERIF = os.path.dirname(os.path.dirname(os.path.abspath(__file__)))
 REPO = os.environ.get("VERIF_REPO", "/repo")
 SPEC = os.path.join(VERIF, "spec")
 HARNESS = os.path.join(VERIF, "harness")
-EVID = os.path.join(VERIF, "evidence")
+EVID = os.environ.get("VERIF_EVID", os.path.join(VERIF, "evidence"))   # selftest sweeps redirect this
 KNOWN = os.path.join(VERIF, "KNOWN_FINDINGS.txt")
 NCPU = os.cpu_count() or 4
 
@@ -258,7 +258,15 @@ def build_driver(ctx):
     # the harness module needs the repository's go.sum entries
     out = os.path.join(ctx.tmp, "driver")
     t = time.time()
-    p = subprocess.run(["go", "build", "-tags", "verif", "-o", out, "./cmd/driver"], cwd=HARNESS, env=goenv(),
+    hdir = HARNESS
+    if os.path.realpath(REPO) != "/repo":
+        # selftest sweeps check a scratch copy of the repository: build a copy of the harness module
+        # whose replace directive points there (the registered checks always use /repo itself)
+        hdir = os.path.join(ctx.tmp, "harness-src")
+        shutil.copytree(HARNESS, hdir)
+        gm = open(os.path.join(hdir, "go.mod")).read().replace("=> /repo", "=> " + os.path.realpath(REPO))
+        open(os.path.join(hdir, "go.mod"), "w").write(gm)
+    p = subprocess.run(["go", "build", "-tags", "verif", "-o", out, "./cmd/driver"], cwd=hdir, env=goenv(),
                        stdout=subprocess.PIPE, stderr=subprocess.STDOUT, text=True)
     if p.returncode != 0:
         raise Infra("harness build failed (is /repo compiling with -tags verif?):\n" + p.stdout[-4000:])
